@@ -38,6 +38,8 @@ const (
 
 var harnesses []*vs.Harness
 
+var sidPrefix = strings.Repeat("s", 64)
+
 var keepMetricsOrder bool
 
 func TestVerif(t *testing.T) {
@@ -156,7 +158,8 @@ func newWorld() *world {
 
 func (w *world) addProxy(nat, ptype string, clients int, arrive time.Duration, beh int) *proxyRec {
 	p := &proxyRec{idx: len(w.proxies), nat: nat, natWire: nat, ptype: ptype, clients: clients, arrive: arrive, beh: beh}
-	p.sid = fmt.Sprintf("sid%d", p.idx)
+	// session ids are opaque strings of any length; these are pairwise distinct but share a long prefix
+	p.sid = sidPrefix + fmt.Sprintf("sid%d", p.idx)
 	p.remote = fmt.Sprintf("10.0.0.%d:1234", p.idx+1)
 	empty := ""
 	p.pattern = &empty
